@@ -1,12 +1,12 @@
 import AfkakProofs.Producer.Spec
 /-! How the monitors' summary (`Track`) moves with a step, up to the fields the batch relation does
-not read (`fired`, `timersSinceReset`, `sends`, `nextSid`, `cancelledQueued`, `acct`). -/
+not read (`fired`, `timersSinceReset`, `sends`, `nextSid`, `cancelledQueued`, `lateCancel`, `acct0`). -/
 namespace Afkak.Producer
 open Afkak.Consts Afkak.Monitor.ProducerTrace
 
 /-- forget the fields the batch relation does not read -/
 def norm (t : Track) : Track :=
-  { t with fired := [], timersSinceReset := 0, sends := [], nextSid := 0, cancelledQueued := [], acct := true,
+  { t with fired := [], timersSinceReset := 0, sends := [], nextSid := 0, cancelledQueued := [],
            lateCancel := false, acct0 := true }
 
 theorem norm_idem (t : Track) : norm (norm t) = norm t := rfl
